@@ -185,6 +185,8 @@ def _scenario(c, value):
         return c.raw_command(b"config get cluster", end_tokens=b"\n\r\nEND\r\n")
     if s == "raw_stats":
         return c.raw_command("stats", end_tokens="END\r\n")
+    if s == "raw_error":
+        return c.raw_command(b"bogus command", end_tokens=b"\n\r\nEND\r\n")
     raise AssertionError(s)
 
 
@@ -247,7 +249,7 @@ def h_op(value: bytes, c1: int, eintr: int) -> int:
 READERS = (("line", {}), ("value", {}), ("segment", {"token": "\r\n"}), ("segment", {"token": "END\r\n"}),
            ("segment", {"token": "\n\r\nEND\r\n"}), ("segment", {"token": "\n"}))
 SCENS = ("get", "gets", "get_many", "gets_many", "gat", "miss", "stats", "set", "add", "set_many", "delete_many", "incr",
-         "touch", "version", "raw_version", "raw_get", "raw_config", "raw_stats")
+         "touch", "version", "raw_version", "raw_get", "raw_config", "raw_stats", "raw_error")
 
 
 def shards(tier):
